@@ -157,8 +157,8 @@ def _guarded_edge(P, R):
 def _two_records(P, R):
     # writers
     for fn in sorted(P.views(lambda f: f.file == "src/engine/module.rs"), key=lambda f: f.name):
-        if fn.impl_self not in (MM, MOD):
-            continue
+        if fn.impl_self not in (MM, MOD) or P.absorbed(P.fns_raw.get(fn.name)):
+            continue        # a private helper spliced into all its callers is judged there (`record_import_edge`)
         rem_mod = [c for (c, s) in A.calls_with_receiver_field(fn, "modules", MM) if c.name.endswith(("HashMap::remove", "HashMap::clear", "HashMap::retain", "HashMap::drain"))]
         if rem_mod:
             g_node = [c for (c, s) in A.calls_with_receiver_field(fn, "import_graph", MM) if c.name.endswith("HashMap::remove")]
